@@ -83,7 +83,7 @@ namespace GNFA
 empty string) that the regex validator accepts. -/
 def LabelOk (g : GNFA σ α) : Option (GLabel α) → Prop
   | none => True
-  | some l => ((∀ c ∈ l.chars, g.charOk c = true) ∨ l.chars = []) ∧ l.valid = .ok true
+  | some l => ((∀ c ∈ l.chars, g.charOk c = true) ∨ l.chars = []) ∧ l.verdict = .valid
 
 theorem validateLabel_eq_ok (g : GNFA σ α) (l : Option (GLabel α)) :
     g.validateLabel l = .ok () ↔ g.LabelOk l := by
@@ -94,12 +94,11 @@ theorem validateLabel_eq_ok (g : GNFA σ α) (l : Option (GLabel α)) :
     by_cases hc : l.chars.all g.charOk = true
     · have hc' : ∀ c ∈ l.chars, g.charOk c = true := by simpa using hc
       simp only [hc, Bool.not_true, Bool.false_and]
-      rcases hv : l.valid with e | b
+      cases hv : l.verdict
+      · simp only [and_true]
+        exact ⟨fun _ => Or.inl hc', fun _ => by simp⟩
       · simp
-      · cases b
-        · simp
-        · simp only [and_true]
-          exact ⟨fun _ => Or.inl hc', fun _ => by simp⟩
+      · simp
     · have hc' : ¬ ∀ c ∈ l.chars, g.charOk c = true := by simpa using hc
       by_cases he : l.chars = []
       · exact absurd (by simp [he]) hc'
